@@ -339,6 +339,7 @@ func (node *Update) walkSubtree(visit Visit) error {
 		node.Comments,
 		node.TableExprs,
 		node.Exprs,
+		node.From,
 		node.Where,
 		node.OrderBy,
 		node.Limit,
